@@ -234,10 +234,12 @@ theorem ChanWF.step {s s' : St} {ob : Obs} (h : ChanWF s) (e : Ev) (hs : Conn.st
             · simp only [Option.some.injEq, Prod.mk.injEq] at hs
               rw [← hs.1]
               exact chanWF_endDriver (s := { s with opQ := rest, ops := _, searchmap := _ }) h.ok _
-            · cases hk : o.kind <;> (
-                simp only [hk, Option.some.injEq, Prod.mk.injEq] at hs
-                rw [← hs.1]
-                exact ⟨h.ok, fun hd => absurd hd hrun⟩)
+            · split at hs
+              · cases hs
+              · cases hk : o.kind <;> (
+                  simp only [hk, Option.some.injEq, Prod.mk.injEq] at hs
+                  rw [← hs.1]
+                  exact ⟨h.ok, fun hd => absurd hd hrun⟩)
   | drvOpClosed =>
     simp only [Conn.step] at hs
     split at hs
